@@ -321,6 +321,7 @@ pub(crate) mod verif_ring {
                 #[kani::stub(alloc::alloc::alloc, crate::verif::common::stub_alloc)]
                 #[kani::stub(alloc::alloc::dealloc, crate::verif::common::stub_dealloc)]
                 #[kani::stub(alloc::alloc::realloc, crate::verif::common::stub_realloc)]
+                #[kani::stub(alloc::fmt::format, crate::verif::common::stub_format)]
                 fn $name() {
                     let b = hist::<$ty, _>(&mut KaniSrc, $cap, $n, P18);
                     kani::cover!(b & W_FULL_THEN_POP != 0, "W ring hist: the buffer became full and was popped");
